@@ -10,7 +10,7 @@ from ..loader import AnalysisError, FuncInfo
 from ..report import rule
 from ..resolve import Resolver, T_INT
 from ..terms import App, Attr, Comp, Idx, Sym
-from .common import Flow, all_calls, attr_chain, bind_args, callee_fq, calls_to, kwarg, short, unparse, user_argument_reads
+from .common import Flow, all_calls, attr_chain, bind_args, callee_fq, calls_to, kwarg, module_constant, short, unparse, user_argument_reads
 
 # external callees whose result depends on something other than their arguments
 NONDET_PREFIXES = ("random.", "numpy.random.", "secrets.", "uuid.", "time.", "datetime.", "os.urandom", "os.getpid",
@@ -548,7 +548,7 @@ def r4(ctx):
             if isinstance(n, ast.Name) and isinstance(n.ctx, ast.Load) and n.id not in locs and n.id in f.module.globals:
                 st = f.module.globals[n.id]
                 is_logger = isinstance(st, ast.Assign) and isinstance(st.value, ast.Call) and "getLogger" in unparse(st.value.func)
-                is_const = isinstance(st, ast.Assign) and isinstance(st.value, ast.Constant) and f.module.global_assign_count.get(n.id, 0) == 1
+                is_const = module_constant(f.module, n.id)
                 is_alias = isinstance(st, ast.Assign) and isinstance(st.value, (ast.Subscript, ast.Attribute, ast.Name)) and f.module.name.endswith("ticc_types")
                 if not (is_logger or is_const or is_alias):
                     reads.append((f, n))
